@@ -319,8 +319,15 @@ def run_case(case) -> Result:
             res.fail(key + ":structure", f"{name} of {f.label}: " + "; ".join(probs))
             continue
         got = t_inner(g, D)
-        ref = fd_dir(fun)
+        ref, ref_coarse = fd_dir(fun, 5e-4), fd_dir(fun, 1e-3)
         scale = 1.0 + abs(ref) + abs(fun(0.0))
+        if not abs(ref - ref_coarse) <= 1e-7 * scale:
+            # the two finite-difference estimates disagree: the dense formula varies too fast along D (nearly
+            # singular matrix) for the reference to be trusted at 1e-6 - not judged
+            res.discarded = True
+            res.classes.append("discard:finite-difference-reference-unreliable")
+            res.failures = []
+            return res
         if not np.isfinite(got) or abs(got - ref) > 1e-6 * scale:
             res.fail(key, f"{name} of {f.label}: <grad,D> = {got!r} but the derivative of the dense formula "
                      f"along D is {ref!r}", got=got, ref=ref)
